@@ -125,8 +125,10 @@ impl PushIteratorToArray {
             .iterators
             .pop()
             .js_expect("iterator stack should have at least an iterator")?;
+        let o = array.as_object().js_expect("should always be an object")?;
         while let Some(next) = iterator.step_value(context)? {
-            Array::push(&array, &[next], context)?;
+            let len = o.length_of_array_like(context)?;
+            o.create_data_property_or_throw(len, next, context)?;
         }
         Ok(())
     }
